@@ -13,13 +13,18 @@ class ConstraintExpansionMixin:
     constraints for future evaluations.
     """
 
+    def _may_expand(self, extra_constraints):
+        # a solver that tracks its constraints for unsat cores must only hold what the caller added: a helper
+        # constraint would show up in a core as if it had been
+        return len(extra_constraints) == 0 and not getattr(self, "_track", False)
+
     def eval(self, e, n, extra_constraints=(), exact=None):
         results = super().eval(e, n, extra_constraints=extra_constraints, exact=exact)
 
         # if there are less possible solutions than n (i.e., meaning we got all the solutions for e),
         # add constraints to help the solver out later
         # TODO: does this really help?
-        if len(extra_constraints) == 0 and len(results) < n:
+        if self._may_expand(extra_constraints) and len(results) < n:
             # a NaN result is not "equal" to anything, not even to itself: state it as fpIsNaN
             self.add(
                 [
@@ -34,18 +39,18 @@ class ConstraintExpansionMixin:
 
     def max(self, e, extra_constraints=(), signed=False, exact=None):
         m = super().max(e, extra_constraints=extra_constraints, signed=signed, exact=exact)
-        if len(extra_constraints) == 0:
+        if self._may_expand(extra_constraints):
             self.add([claripy.SLE(e, m) if signed else claripy.ULE(e, m)], invalidate_cache=False)
         return m
 
     def min(self, e, extra_constraints=(), signed=False, exact=None):
         m = super().min(e, extra_constraints=extra_constraints, signed=signed, exact=exact)
-        if len(extra_constraints) == 0:
+        if self._may_expand(extra_constraints):
             self.add([claripy.SGE(e, m) if signed else claripy.UGE(e, m)], invalidate_cache=False)
         return m
 
     def solution(self, e, v, extra_constraints=(), exact=None):
         b = super().solution(e, v, extra_constraints=extra_constraints, exact=exact)
-        if b is False and len(extra_constraints) == 0:
+        if b is False and self._may_expand(extra_constraints):
             self.add([e != v], invalidate_cache=False)
         return b
